@@ -271,16 +271,17 @@ class MainGen:
         return out
 
 
-def main_state(rng, cfg, mode, thumb, te, extra_sys=None):
-    """start state of a program-mode run: main mode, stacks, data pointer, vectors at 0"""
-    cpsr = G.random_cpsr(rng, cfg, mode=mode, thumb=thumb) & ~0x1C0
+def main_state(rng, cfg, mode, thumb, te, extra_sys=None, e=0, ee=0):
+    """start state of a program-mode run: main mode, stacks, data pointer, vectors at 0; e = data endianness of the main program,
+    ee = SCTLR.EE (data endianness of the handlers)"""
+    cpsr = G.random_cpsr(rng, cfg, mode=mode, thumb=thumb, e=e) & ~0x1C0
     R = {n: rng.getrandbits(32) for n in ['R%dusr' % i for i in range(13)] + ['R%dfiq' % i for i in range(8, 13)]}
     R['R6usr'] = DBASE
     for m, top in STACK_TOP.items():
         R['SP' + m] = top
     for m in ('usr', 'fiq', 'irq', 'svc', 'abt', 'und', 'mon'):
         R['LR' + m] = rng.getrandbits(32) & ~3
-    sys = {'sctlr': G.sctlr_value(m=0, a=0, u=1, te=te, v=0, br=1), 'vbar': 0, 'mvbar': MON_BASE}
+    sys = {'sctlr': G.sctlr_value(m=0, a=0, u=1, te=te, v=0, br=1, ee=ee), 'vbar': 0, 'mvbar': MON_BASE}
     if cfg.get('have_security_ext'):
         sys['scr'] = 0
     sys.update(extra_sys or {})
